@@ -60,50 +60,74 @@ def mk_ref(a):
     return Val.ref(a if z3.is_expr(a) else z3.IntVal(a))
 
 
-def is_none(v): return Val.is_none(v)
-def is_b(v): return Val.is_b(v)
-def is_i(v): return Val.is_i(v)
-def is_r(v): return Val.is_r(v)
-def is_s(v): return Val.is_s(v)
-def is_ref(v): return Val.is_ref(v)
-def is_cls(v): return Val.is_cls(v)
-def is_fn(v): return Val.is_fn(v)
-def bv(v): return Val.bv(v)
-def iv(v): return Val.iv(v)
-def rv(v): return Val.rv(v)
-def sv(v): return Val.sv(v)
-def addr(v): return Val.addr(v)
-def cid(v): return Val.cid(v)
+# ---- tag tests and accessors, distributed over if-then-else ---------------------------------------------
+# Values are often ite-terms whose leaves are constructor applications (If(c, r(x), i(y))).  Applying a tester
+# or accessor to the ite as a whole hides the tags from the simplifier and piles up nested case analyses, so
+# testers/accessors are pushed to the leaves, where they reduce syntactically.
+
+_CTOR_NAMES = ('none', 'b', 'i', 'r', 's', 'ref', 'pinf', 'ninf', 'nan', 'cls', 'fn')
+
+
+def _lift(v, f, depth=8):
+    if depth > 0 and z3.is_app(v) and v.decl().kind() == z3.Z3_OP_ITE:
+        c, a, b = v.children()
+        la, lb = _lift(a, f, depth - 1), _lift(b, f, depth - 1)
+        if la.eq(lb):
+            return la
+        return z3.If(c, la, lb)
+    r = f(v)
+    if z3.is_app(v) and v.decl().name() in _CTOR_NAMES and v.decl().kind() != z3.Z3_OP_UNINTERPRETED:
+        return z3.simplify(r)
+    return r
+
+
+def is_none(v): return _lift(v, Val.is_none)
+def is_b(v): return _lift(v, Val.is_b)
+def is_i(v): return _lift(v, Val.is_i)
+def is_r(v): return _lift(v, Val.is_r)
+def is_s(v): return _lift(v, Val.is_s)
+def is_ref(v): return _lift(v, Val.is_ref)
+def is_cls(v): return _lift(v, Val.is_cls)
+def is_fn(v): return _lift(v, Val.is_fn)
+def is_pinf(v): return _lift(v, Val.is_pinf)
+def is_ninf(v): return _lift(v, Val.is_ninf)
+def is_nan(v): return _lift(v, Val.is_nan)
+def bv(v): return _lift(v, Val.bv)
+def iv(v): return _lift(v, Val.iv)
+def rv(v): return _lift(v, Val.rv)
+def sv(v): return _lift(v, Val.sv)
+def addr(v): return _lift(v, Val.addr)
+def cid(v): return _lift(v, Val.cid)
 
 
 def is_intlike(v):
     """int or bool (bool is a subclass of int in Python)"""
-    return z3.Or(is_i(v), is_b(v))
+    return _lift(v, lambda x: z3.Or(Val.is_i(x), Val.is_b(x)))
 
 
 def is_num(v):
     """finite number: bool, int or (finite) float"""
-    return z3.Or(is_i(v), is_r(v), is_b(v))
+    return _lift(v, lambda x: z3.Or(Val.is_i(x), Val.is_r(x), Val.is_b(x)))
 
 
 def is_special(v):
-    return z3.Or(Val.is_pinf(v), Val.is_ninf(v), Val.is_nan(v))
+    return _lift(v, lambda x: z3.Or(Val.is_pinf(x), Val.is_ninf(x), Val.is_nan(x)))
 
 
 def is_floatlike(v):
     """a Python float (finite or special)"""
-    return z3.Or(is_r(v), is_special(v))
+    return _lift(v, lambda x: z3.Or(Val.is_r(x), Val.is_pinf(x), Val.is_ninf(x), Val.is_nan(x)))
 
 
 def ival(v):
     """integer value of an int-like Val"""
-    return z3.If(is_i(v), iv(v), z3.If(bv(v), z3.IntVal(1), z3.IntVal(0)))
+    return _lift(v, lambda x: z3.If(Val.is_i(x), Val.iv(x), z3.If(Val.bv(x), z3.IntVal(1), z3.IntVal(0))))
 
 
 def num(v):
     """real value of a finite numeric Val"""
-    return z3.If(is_i(v), z3.ToReal(iv(v)),
-                 z3.If(is_b(v), z3.If(bv(v), z3.RealVal(1), z3.RealVal(0)), rv(v)))
+    return _lift(v, lambda x: z3.If(Val.is_i(x), z3.ToReal(Val.iv(x)),
+                                    z3.If(Val.is_b(x), z3.If(Val.bv(x), z3.RealVal(1), z3.RealVal(0)), Val.rv(x))))
 
 
 def simp(e):
@@ -147,27 +171,26 @@ FORMAT1 = z3.Function('FORMAT1', S, Val, S)
 FORMAT2 = z3.Function('FORMAT2', S, Val, Val, S)
 FORMAT3 = z3.Function('FORMAT3', S, Val, Val, Val, S)
 TYPE_STR = z3.Function('TYPE_STR', Val, Val)
-# sums over list contents: SUMR(arr, n) = sum_{k<n} num(arr[k])
-SUMR = z3.RecFunction('SUMR', VArr, I, R)
-_a = z3.Const('sum_a', VArr)
-_n = z3.Const('sum_n', I)
-z3.RecAddDefinition(SUMR, [_a, _n], z3.If(_n <= 0, z3.RealVal(0), SUMR(_a, _n - 1) + num(z3.Select(_a, _n - 1))))
-
-# x ** n for integer n >= 0 in the reals (assumption A1): PW(x, n) = x * PW(x, n-1), PW(x, 0) = 1
-PW = z3.RecFunction('PW', R, I, R)
-_x = z3.Const('pw_x', R)
-_m = z3.Const('pw_n', I)
-z3.RecAddDefinition(PW, [_x, _m], z3.If(_m <= 0, z3.RealVal(1), _x * PW(_x, _m - 1)))
+# sums over list contents: SUMR(arr, n) = sum_{k<n} num(arr[k]).  Uninterpreted in verification conditions (a recursive
+# definition makes z3 unfold on symbolic n without end -- measured); its defining equations
+#     SUMR(a, n) = 0 for n <= 0,   SUMR(a, n+1) = SUMR(a, n) + num(a[n]) for n >= 0
+# are used only inside the induction proofs of the lemma library (lemmas.prove_builtin) and for literal lengths.
+SUMR = z3.Function('SUMR', VArr, I, R)
 
 
-def forall(vs, body, patterns=None, qid=""):
-    """ForAll with patterns when z3 accepts them, without otherwise"""
-    if patterns:
-        try:
-            return z3.ForAll(vs, body, patterns=patterns, qid=qid)
-        except z3.Z3Exception:
-            pass
-    return z3.ForAll(vs, body, qid=qid)
+def sumr_def(a, n):
+    """the defining equations instantiated at (a, n)"""
+    return [z3.Implies(n <= 0, SUMR(a, n) == 0),
+            z3.Implies(n >= 0, SUMR(a, n + 1) == SUMR(a, n) + num(z3.Select(a, n)))]
+
+
+# x ** n for integer n >= 0 in the reals (assumption A1): PW(x, 0) = 1, PW(x, n+1) = x * PW(x, n).
+# Uninterpreted in verification conditions; the defining equations are used in the lemma library's inductions.
+PW = z3.Function('PW', R, I, R)
+
+
+def pw_def(x, n):
+    return [z3.Implies(n <= 0, PW(x, n) == 1), z3.Implies(n >= 0, PW(x, n + 1) == x * PW(x, n))]
 
 
 # abstract multiplication for quantifier-heavy contexts (contract option nonlinear='abstract'):
@@ -185,3 +208,13 @@ def mul_facts(x, y, t):
             z3.Implies(z3.And(x >= 0, y >= 0, x <= 1), t <= y),
             z3.Implies(z3.And(x > 0, y >= 0, y < 1), t < x),
             z3.Implies(z3.And(x > 0, y > 0, y < 1), z3.And(t > 0, t < x))]
+
+
+def forall(vs, body, patterns=None, qid=""):
+    """ForAll with patterns when z3 accepts them, without otherwise"""
+    if patterns:
+        try:
+            return z3.ForAll(vs, body, patterns=patterns, qid=qid)
+        except z3.Z3Exception:
+            pass
+    return z3.ForAll(vs, body, qid=qid)
